@@ -16,7 +16,7 @@ import time
 import z3
 
 import engine as E
-from engine import Agg, Cell, Engine, EnumV, ListV, Opaque, Opt, Ref, State, UNIT, Z
+from engine import Agg, Cell, Closure, Engine, EnumV, ListV, Opaque, Opt, Ref, State, UNIT, Z
 from mir import Unsupported, find
 from models import Models, deref
 
@@ -125,7 +125,7 @@ def reverse16(x):
 
 def path_of(v):
     v = deref(v)
-    if isinstance(v, Foreign):
+    if isinstance(v, Foreign) or hasattr(v, "child_cell"):
         return v.path
     if isinstance(v, Opaque) and isinstance(v.data, str):
         return f"{v.what}({v.data})"
@@ -190,6 +190,51 @@ class CsrEnv:
             return one(Opaque("result", (ok, UNIT, Opaque("enum", (z3.Int("verify_error_kind"), None)))))
         if re.match(r"^Oid::<'_>::iter$", c):
             return one(Opt(z3.Bool("oid_arcs_fit_u64"), Opaque("oid-arcs", path_of(args[0]))))
+        m = re.match(r"^Result::<.*>::(or_else|and_then|map)::<", c)
+        if m and len(args) == 2 and isinstance(args[1], Closure):
+            # combinators with the closure executed in place; a symbolic Result forks into its Ok and its Err case
+            r, clo, which = args[0], args[1], m.group(1)
+            cases = []
+            if isinstance(r, Agg) and r.kind.startswith("variant:"):
+                cases.append((st, r.kind.startswith("variant:0"), r.fields[0].v))
+            elif isinstance(r, Opaque) and r.what == "result":
+                s_err = st.clone()
+                s_err.pc.append(z3.Not(r.data[0]))
+                st.pc.append(r.data[0])
+                if st.feasible():
+                    cases.append((st, True, r.data[1]))
+                if s_err.feasible():
+                    cases.append((s_err, False, r.data[2]))
+            else:
+                raise Unsupported(f"Result::{which} on " + type(r).__name__)
+            out = []
+            for (s, is_ok, payload) in cases:
+                if (which == "or_else") == is_ok:
+                    # untouched case: Ok for or_else, Err for and_then / map
+                    out.append((s, Agg("variant:0:Ok" if is_ok else "variant:1:Err", [Cell(payload)])))
+                    continue
+                s.roots["__comb_clo"] = Cell(clo)
+                for (s2, v) in eng.call_closure(s.roots["__comb_clo"].v, [payload], s):
+                    out.append((s2, Agg("variant:0:Ok", [Cell(v)]) if which == "map" else v))
+            return out
+        if re.match(r"^Result::<.*>::ok$", c) and isinstance(args[0], Opaque) and args[0].what == "result":
+            return one(Opt(args[0].data[0], args[0].data[1]))
+        if re.match(r"^Result::<.*>::(is_ok|is_err)$", c) and isinstance(deref(args[0]), Opaque) and deref(args[0]).what == "result":
+            ok = deref(args[0]).data[0]
+            return one(Z(ok if c.endswith("is_ok") else z3.Not(ok)))
+        if re.match(r"^Option::<.*>::(as_ref|as_deref|clone|cloned|copied)$", c) and hasattr(deref(args[0]), "child_cell"):
+            lz = deref(args[0])
+            return one(Opt(z3.Bool(f"is_some[{lz.path}]"), Ref(lz.child_cell("some"))))
+        if re.match(r"^Option::<.*>::(as_ref|as_deref)$", c) and isinstance(deref(args[0]), Opt):
+            o = deref(args[0])
+            return one(Opt(o.cond, o.payload if isinstance(o.payload, Ref) or o.payload is None else Ref(Cell(o.payload))))
+        m = re.match(r"^Option::<.*>::(unwrap|expect)$", c)
+        if m and isinstance(args[0], Opt):
+            o = args[0]
+            if getattr(eng, "track_panics", False) and st.feasible(z3.Not(o.cond)):
+                eng.panics.append((list(st.pc) + [z3.Not(o.cond)], f"Option::{m.group(1)} on None", "?"))
+            st.pc.append(o.cond)
+            return one(o.payload)
         if re.match(r"^Option::<.*>::ok_or::<", c):
             o = args[0]
             return one(Opaque("result", (o.cond, o.payload, Opaque("error", "ok_or"))))
@@ -271,9 +316,15 @@ class CsrEnv:
             return one(UNIT)
         if re.match(r"^core::slice::<impl \[(certificate::)?ExtendedKeyUsagePurpose\]>::contains$", c):
             lv, x = deref(args[0]), deref(args[1])
-            if not isinstance(lv, ListV) or not all(isinstance(i, Opaque) and i.what == "unit-variant" for i in lv.items + [x]):
+
+            def vname(v):
+                v = deref(v)
+                if isinstance(v, Opaque) and v.what in ("unit-variant", "const") and isinstance(v.data, str):
+                    return v.data.split("::")[-1]
+                return None
+            if not isinstance(lv, ListV) or any(vname(i) is None for i in lv.items + [x]):
                 raise Unsupported("contains on symbolic purposes")
-            return one(Z(z3.BoolVal(any(i.data == x.data for i in lv.items))))
+            return one(Z(z3.BoolVal(any(vname(i) == vname(x) for i in lv.items))))
         if re.match(r"^Vec::<Oid<'_>>::is_empty$", c):
             o = deref(args[0])
             return one(Z(z3.Bool(f"ext{o.data}_eku_other_empty")))
